@@ -4,7 +4,7 @@
 
   Source modelled (as it is NOW):
     internal/dag/parser.go                 parseParamValue, stringifyParam, parseParams
-    internal/persistence/model/status.go   Params  (strings.Join(params, " "))
+    internal/persistence/model/status.go   Params  (entries quoted when needed, joined with " ")
     cmd/start.go   removeQuotes ;  internal/client/client.go   escapeArg
 
   parseParamValue uses the regular expression (Go `regexp`, leftmost-first = Perl semantics)
@@ -147,11 +147,32 @@ def parse (p : Str) : List (Str × Str) := (tokenize p).map (fun t => (t.1, unqu
 /-- `stringifyParam` -/
 def stringify (pr : Str × Str) : Str := if pr.1 = [] then pr.2 else pr.1 ++ '=' :: pr.2
 
-/-- `strings.Join(params, " ")` (model.Params): the recorded parameter string -/
-def join : List Str → Str
+/-- `strings.Join(·, " ")` -/
+def joinSp : List Str → Str
   | [] => []
   | [a] => a
-  | a :: b :: r => a ++ ' ' :: join (b :: r)
+  | a :: b :: r => a ++ ' ' :: joinSp (b :: r)
+
+/-- write a value between double quotes: `strings.ReplaceAll(value, "\"", "\\\"")` -/
+def esc : Str → Str
+  | [] => []
+  | c :: r => if c = '"' then '\\' :: '"' :: esc r else c :: esc r
+
+/-- model.Params, `paramNamePrefix.FindString` (`^[^\s=]+=`): (the prefix incl. its '=', the rest) -/
+def splitName (s : Str) : Str × Str :=
+  match (spanP nameCh s).2 with
+  | e :: r => if (spanP nameCh s).1 ≠ [] ∧ e = '=' then ((spanP nameCh s).1 ++ ['='], r) else ([], s)
+  | [] => ([], s)
+
+/-- model.Params: the value part is empty or `strings.ContainsAny(value, " \t\n\f\r\"")` -/
+def needsQuote (v : Str) : Bool := v = [] || v.any (fun c => reSpace c || c = '"')
+
+/-- model.Params, one entry: `NAME=` kept, the value quoted when it needs it (fix 0f8580b / F13) -/
+def quoteEntry (s : Str) : Str :=
+  (splitName s).1 ++ (if needsQuote (splitName s).2 then '"' :: (esc (splitName s).2 ++ ['"']) else (splitName s).2)
+
+/-- model.Params: the recorded parameter string (before 0f8580b: `strings.Join(params, " ")` unquoted) -/
+def join (l : List Str) : Str := joinSp (l.map quoteEntry)
 
 /-- `DAG.Params` as built by parseParams, and the string recorded in the status -/
 def dagParams (p : Str) : List Str := (parse p).map stringify
